@@ -22,7 +22,10 @@ import (
 	"github.com/flant/shell-operator/pkg/debug"
 	kem "github.com/flant/shell-operator/pkg/kube_events_manager"
 	shop "github.com/flant/shell-operator/pkg/shell-operator"
+	"github.com/flant/shell-operator/pkg/task"
+	task_metadata "github.com/flant/shell-operator/pkg/hook/task_metadata"
 	"github.com/flant/shell-operator/pkg/task/queue"
+	"k8s.io/apimachinery/pkg/apis/meta/v1/unstructured"
 	simrt "verifsimrt"
 )
 
@@ -203,6 +206,8 @@ type Exec struct {
 	Admission  string
 	Conversion string
 	// observations
+	QueueSeen  string // queue whose task carries exactly these contexts while the hook runs ("" = not identified)
+	HeadIdx    int    // position of that task in its queue (0 = head)
 	ParseErr   string
 	InputsSeen map[string]int // size of each of the five files at start
 }
@@ -346,6 +351,15 @@ type OpSim struct {
 	BootErr  error
 	Booted   bool
 	inFlight int
+	Arrivals []Arrival
+}
+
+// Arrival: a task appended by the events handler (filled when the handlers are wrapped).
+type Arrival struct {
+	Queue, Hook string
+	At          time.Duration
+	Waited      time.Duration
+	IdleHead    bool
 }
 
 func NewOpSim(e *Env, hooks []*HookSpec) *OpSim {
@@ -408,6 +422,7 @@ func (o *OpSim) stub(cmd *exec.Cmd, op string) ([]byte, error) {
 	}
 	o.Execs = append(o.Execs, x)
 	o.inFlight++
+	o.locateTask(x)
 	if o.Behave != nil {
 		o.Behave(x)
 	}
@@ -432,6 +447,44 @@ func (o *OpSim) stub(cmd *exec.Cmd, op string) ([]byte, error) {
 		return nil, fmt.Errorf("exit status 1")
 	}
 	return nil, nil
+}
+
+// locateTask finds the queued task that carries exactly the contexts of this execution.
+func (o *OpSim) locateTask(x *Exec) {
+	if o.Op == nil || len(x.Ctxs) == 0 {
+		return
+	}
+	type cand struct {
+		q   string
+		idx int
+	}
+	var cands []cand
+	o.Op.TaskQueues.Iterate(func(q *queue.TaskQueue) {
+		idx := 0
+		q.Iterate(func(t task.Task) {
+			defer func() { idx++ }()
+			if t == nil {
+				return
+			}
+			hm, ok := t.GetMetadata().(task_metadata.HookMetadata)
+			if !ok || hm.HookName != x.Hook || len(hm.BindingContext) != len(x.Ctxs) {
+				return
+			}
+			for i, bc := range hm.BindingContext {
+				if bc.Binding != x.Ctxs[i].Binding {
+					return
+				}
+			}
+			cands = append(cands, cand{q.Name, idx})
+		})
+	})
+	if len(cands) == 1 {
+		x.QueueSeen, x.HeadIdx = cands[0].q, cands[0].idx
+	}
+}
+
+func toUnstructured(m map[string]any) *unstructured.Unstructured {
+	return &unstructured.Unstructured{Object: m}
 }
 
 // Boot assembles and starts the operator; call from a task.
